@@ -40,7 +40,8 @@ _RULE = ('generated chains: 5-10 genesis coins, 2-4 messages, 1-4 (thorough 6) b
          'missing, mismatching, doubly spent inputs; unsigned, expired, immature; resubmitted ids) built with '
          'TransactionBuilder, delivered by sources that respect or ignore the limits, executed by the real '
          'Executor::native produce -> validate -> commit. flags: 8 tiny gas limit, 16 tiny size limit, 64 missing '
-         'coinbase contract, 2 genesis coin on a future utxo id, 4 fees near u64::MAX. non-trivial = a block with at '
+         'coinbase contract, 2 genesis coin on a future utxo id, 4 fees near u64::MAX, 128 block gas limit = max_gas of the '
+         'first transaction, 1 (C06 only) utxo validation off. non-trivial = a block with at '
          'least one executed transaction besides the mint')
 
 _ASSUME = ['FuelVM, into_checked_basic, signature/predicate checks, into_ready and total_fee_paid are oracles: their '
